@@ -234,6 +234,13 @@ func (r *registry) matchAt(p []byte, off int64) []string {
 		if s == nil || off < 0 || off+int64(len(p)) > s.Size() {
 			continue
 		}
+		if ms, ok := s.(*memSource); !(ok && len(ms.mask) > 0) && len(p) > 64 {
+			// cheap rejection on the first bytes before comparing everything
+			var head [32]byte
+			if k, _ := s.ReadAt(head[:], off); k == 32 && !bytes.Equal(head[:], p[:32]) {
+				continue
+			}
+		}
 		n, _ := s.ReadAt(buf, off)
 		if n != len(p) {
 			continue
@@ -384,7 +391,8 @@ func (r *registry) identify(p []byte) (*patSource, int64) {
 	if len(p) < 8 {
 		return nil, 0
 	}
-	for a := 0; a < 8 && a+8 <= len(p); a++ {
+	// try the aligned words of the first 40 bytes: the very first one may be overwritten by a planted signature
+	for a := 0; a < 40 && a+8 <= len(p); a++ {
 		w := binary.BigEndian.Uint64(p[a : a+8])
 		id := uint32(w >> 40)
 		r.mu.Lock()
@@ -397,8 +405,8 @@ func (r *registry) identify(p []byte) (*patSource, int64) {
 		if off < 0 || off >= s.size {
 			continue
 		}
-		// verify the first bytes
-		chk := make([]byte, min(len(p), 16))
+		// verify the first bytes (the source's own ReadAt knows about planted bytes)
+		chk := make([]byte, min(len(p), 48))
 		n, _ := s.ReadAt(chk, off)
 		if n == len(chk) && bytes.Equal(chk, p[:n]) {
 			return s, off
